@@ -61,6 +61,13 @@ static void print_value(Janet v) {
             printf("n:%016llx\n", (unsigned long long) bits);
             break;
         }
+        case JANET_BUFFER: {
+            JanetBuffer *b = janet_unwrap_buffer(v);
+            printf("x:");
+            for (int32_t i = 0; i < b->count; i++) printf("%02x", b->data[i]);
+            printf("\n");
+            break;
+        }
         case JANET_NIL: printf("nil\n"); break;
         case JANET_BOOLEAN: printf("b:%d\n", janet_unwrap_boolean(v) ? 1 : 0); break;
         case JANET_ABSTRACT: {
@@ -87,6 +94,7 @@ static void print_error(Janet e) {
     else if (!strncmp(m, "cannot convert", 14)) printf("err:tonum\n");
     else if (!strncmp(m, "expected int/u64 or int/s64", 27)) printf("err:tonumtype\n");
     else if (!strncmp(m, "compare method requires", 23)) printf("err:cmparg\n");
+    else if (!strncmp(m, "int/to-bytes: expected an int/s64 or int/u64", 44)) printf("err:tobytestype\n");
     else if (!strncmp(m, "arity mismatch", 14)) printf("err:arity\n");
     else if (!strncmp(m, "unknown method", 14)) printf("err:nomethod\n");
     else {
@@ -112,6 +120,13 @@ static JanetFunction *lookup_fn(const char *name) {
 
 static JanetFunction *lookup_fn_uncached(const char *name) {
     Janet out;
+    if (!strcmp(name, "int/to-bytes-le") || !strcmp(name, "int/to-bytes-be")) {
+        char src[256];
+        snprintf(src, sizeof src, "(fn [x] (int/to-bytes x :%s))", name + 13);
+        Janet f;
+        if (janet_dostring(env, src, "harness", &f) == 0 && janet_checktype(f, JANET_FUNCTION)) return janet_unwrap_function(f);
+        return NULL;
+    }
     if (name[0] == 'm' && name[1] == ':') {
         /* method call through a keyword: (:name a0 a1 ...) */
         char src[256];
